@@ -341,6 +341,24 @@ Theorem C06_kmeans_sched_indep : forall lg ex T0 T1 T2 P rot D cfg points weight
 Proof. exact KMeansCollect.kmeans_c06_f64. Qed.
 Print Assumptions C06_kmeans_sched_indep.
 
+(* integer-valued inputs with bounded totals -- a STATIC premise: the weights
+   are integers whose absolute values add up to at most 2^53, every point has
+   D coordinates and so does every coordinate column (`vsum_ok`); erode off.
+   Then no sum of the run can be inexact (they are all sums of sub-families of
+   the input), and only the comparisons need the dynamic flag: the checked run
+   here checks max_by / min_by / the box only (sum check = `true`). *)
+Theorem C06_kmeans_sched_indep_int_inputs : forall lg ex T0 T1 T2 P rot D cfg points weights part,
+  KMeans.s_erode cfg = false ->
+  KMeans.sum_ok_f64 weights = true ->
+  KMeans.vsum_ok (KMeansCollect.F64g lg ex) KMeans.sum_ok_f64 D points = true ->
+  KMeans.kmeans (KMeansCollect.F64g lg ex)
+    (KMeans.reds_chk (KMeansCollect.F64g lg ex) (fun _ => true) KMeans.val_ok_f64 KMeans.cmp_ok_f64 T0 P)
+    rot D cfg points weights part <> Panic 99 ->
+  KMeans.kmeans (KMeansCollect.F64g lg ex) (KMeans.reds_tree (KMeansCollect.F64g lg ex) T1 P) rot D cfg points weights part =
+  KMeans.kmeans (KMeansCollect.F64g lg ex) (KMeans.reds_tree (KMeansCollect.F64g lg ex) T2 P) rot D cfg points weights part.
+Proof. exact KMeansCollect.kmeans_c06_f64_int_inputs. Qed.
+Print Assumptions C06_kmeans_sched_indep_int_inputs.
+
 (* the form used by the run: the value of a checked run without flag IS the
    value of every schedule *)
 Theorem C06_kmeans_checked_run : forall lg ex T1 T2 P rot D cfg points weights part r,
